@@ -219,7 +219,12 @@ impl BasicLexer {
         }
         if let Some(Token::Unknown(_)) = tokens.last() {
             if let Some(Token::Unknown(s)) = tokens.pop() {
-                tokens.push(Token::Unknown(s.trim_end().into()));
+                let s = s.trim_end();
+                if !s.is_empty() {
+                    tokens.push(Token::Unknown(s.into()));
+                } else if let Some(Token::Whitespace(_)) = tokens.last() {
+                    tokens.pop();
+                }
             }
         }
     }
